@@ -68,6 +68,17 @@ def snap(x, depth=0):
         return ("lazy", raw.tobytes(), tuple(sorted(x._set_values)))
     if hasattr(x, "__dataclass_fields__"):
         return (tname,) + tuple((f, snap(getattr(x, f), depth + 1)) for f in x.__dataclass_fields__)
+    if tname in ("Genome", "Geometry", "StreamedGeometry", "GenomeContext", "GlobalOffset"):
+        # objects that hold the genome: the contig sizes and offsets they carry (arrays the genomic methods look sizes up in)
+        gc = x if tname in ("GenomeContext", "GlobalOffset") else getattr(x, "_genome_context", None)
+        go = gc if tname == "GlobalOffset" else getattr(gc, "_global_offset", None)
+        parts = [tname]
+        if gc is not None and hasattr(gc, "chrom_sizes"):
+            parts.append(tuple((k, int(v)) for k, v in gc.chrom_sizes.items()))
+        if go is not None:
+            parts.append(snap(np.asarray(go._sizes), depth + 1))
+            parts.append(snap(np.asarray(go._offset), depth + 1))
+        return tuple(parts)
     if hasattr(x, "get_data") and hasattr(x, "genome_context"):
         try:
             return (tname, snap(x.get_data(), depth + 1))
@@ -162,6 +173,19 @@ def run(ctx):
         t = Bed6([x[0] for x in rows], np.array([x[1] for x in rows]), np.array([x[2] for x in rows]), ["n%d" % i for i in range(len(rows))], np.zeros(len(rows), dtype=int), [r.choice("+-") for _ in rows])
         return g, t
 
+    def geometry_and_iv(r):
+        from bionumpy.genomic_data.geometry import Geometry
+        g, t = genome_and_iv(r)
+        sizes = dict(g.get_genome_context().chrom_sizes)
+        return (Geometry(sizes) if r.random() < 0.5 else Geometry.from_chrom_sizes(bnp.datatypes.ChromosomeSize(list(sizes), np.array(list(sizes.values()), dtype=int))), t)
+
+    def geometry_and_one_each(r):
+        # one interval per contig, the contigs in genome order (whole-chromosome windows and the like)
+        from bionumpy.genomic_data.geometry import Geometry
+        sizes = {"chr1": r.randint(20, 60), "chr2": r.randint(20, 60), "chr3": r.randint(5, 30)} if r.random() < 0.6 else {"chr1": r.randint(20, 60)}
+        rows = [(c, r.randint(0, 3), r.choice([S, S, S - r.randint(1, 4), S + 3])) for c, S in sizes.items()]
+        return (Geometry(sizes), Interval([x[0] for x in rows], np.array([x[1] for x in rows], dtype=int), np.array([x[2] for x in rows], dtype=int)))
+
     def genome_and_iv_out(r):
         """intervals that stick out of their chromosome (negative start / stop beyond the end): clipping has something to do"""
         sizes = {"chr1": 50, "chr2": 30}
@@ -212,6 +236,10 @@ def run(ctx):
         "strops.str_equal": (lambda r: (enc(dna_rows(r)), "ACG"), lambda a, b: strops.str_equal(a, b)),
         "as_encoded_array(ragged,DNA)": (lambda r: (enc(dna_rows(r, "ACGTacgt")),), lambda a: bnp.as_encoded_array(a, bnp.DNAEncoding)),
         "change_encoding": (lambda r: (enc(dna_rows(r), ae.ACGTEncoding),), lambda a: bnp.change_encoding(a, ae.ACTGEncoding)),
+        "as_encoded_array(alphabet-encoded ragged, wider alphabet)": (lambda r: (enc(dna_rows(r), ae.ACGTEncoding),), lambda a: bnp.as_encoded_array(a, ae.ACGTnEncoding)),
+        "as_encoded_array(alphabet-encoded flat, wider alphabet)": (lambda r: (enc("".join(dna_rows(r)) + "A", ae.ACGTEncoding),), lambda a: bnp.as_encoded_array(a, ae.ACGTnEncoding)),
+        "ragged == ragged (operands in two alphabets)": (lambda r: (lambda rows: (enc(rows, ae.ACGTnEncoding), enc(rows[::-1][::-1], ae.ACGTEncoding)))(dna_rows(r)), lambda a, b: a == b),
+        "as_encoded_array(list of encoded rows)": (lambda r: (lambda x: ([x[i] for i in range(len(x))],))(enc(dna_rows(r), ae.ACGTEncoding)), lambda rows: bnp.as_encoded_array(rows)),
         "get_reverse_complement(ascii)": (lambda r: (enc(dna_rows(r, "ACGTNacgtn")),), lambda a: get_reverse_complement(a)),
         "get_reverse_complement(DNA)": (lambda r: (enc(dna_rows(r), ae.ACGTEncoding),), lambda a: get_reverse_complement(a)),
         "translate_dna_to_protein": (lambda r: (enc(dna_rows(r)),), lambda a: translate_dna_to_protein(a)),
@@ -245,6 +273,15 @@ def run(ctx):
         "GenomicIntervals.sorted": (genome_and_iv, lambda g, t: g.get_intervals(t).sorted()),
         "GenomicIntervals.get_location": (genome_and_iv, lambda g, t: g.get_intervals(t, stranded=True).get_location("stop").position),
         "GenomicArray ufunc": (genome_and_iv, lambda g, t: (g.get_intervals(t).get_pileup() + 1) * 2 > 2),
+        "Geometry.clip": (geometry_and_iv, lambda g, t: g.clip(t)),
+        "Geometry.clip(one interval per contig)": (geometry_and_one_each, lambda g, t: g.clip(t)),
+        "Geometry.extend_to_size": (geometry_and_iv, lambda g, t: g.extend_to_size(t, 9)),
+        "Geometry.get_pileup": (geometry_and_iv, lambda g, t: g.get_pileup(t)),
+        "Geometry.get_mask": (geometry_and_one_each, lambda g, t: g.get_mask(t)),
+        "Geometry.merge_intervals": (geometry_and_iv, lambda g, t: g.merge_intervals(t, 2)),
+        "Geometry.sort": (geometry_and_iv, lambda g, t: g.sort(t[::-1])),
+        "Geometry.jaccard": (lambda r: geometry_and_iv(r) + (geometry_and_iv(r)[1],), lambda g, a, b: float(g.jaccard(a, b)) if len(a) and len(b) else 0),
+        "GenomicArray.to_dict/get_data": (genome_and_iv, lambda g, t: (lambda p: [{k: np.asarray(v).tolist() for k, v in p.to_dict().items()}, tables.rows_of(p.get_data())])(g.get_intervals(t).get_pileup())),
         "table[index]": (lambda r: (sorted_iv(r),), lambda a: a[::-1][: 2]),
         "np.concatenate(tables)": (lambda r: (sorted_iv(r), sorted_iv(r)), lambda a, b: np.concatenate([a, b])),
         "write(eager VCF table)": (eager_vcf, lambda t: written_bytes(t, ".vcf")),
